@@ -180,6 +180,9 @@ type Action struct {
 	// Imports and whose placeholders appear in the REVERSE order of the argument names (what decides which of
 	// two clashing packages gets the short name is the order of the placeholders in the text)
 	ImportsInOneTemplateFirst bool `json:"imports_in_one_template_first,omitempty"`
+	// LocateSelf: ask Context.LocateInPackage about the position of the type and of every field type declared
+	// in a package of the module, and render the answers as comments
+	LocateSelf bool `json:"locate_self,omitempty"`
 	// DocOfSelf: ask Context.Doc about the type itself and render tags and doc lines as a comment
 	DocOfSelf bool `json:"doc_of_self,omitempty"`
 	// AskDocOfFieldTypes: like DocOfFieldTypes, but the answers are thrown away (nothing is rendered)
@@ -409,6 +412,26 @@ func (in *inst) generate(gen string, c gengo.Context, named *types.Named) error 
 				c.Render(snippet.Block("func helper_" + gen + "() {}\n"))
 			}
 			c.Render(snippet.Block(fmt.Sprintf("const N_%s_%s = %d // seen=%d\n", typ, gen, in.counter, len(in.seen))))
+		}
+	}
+	if a.LocateSelf {
+		where := func(o types.Object) string {
+			if lp := c.LocateInPackage(o.Pos()); lp != nil {
+				return lp.Pkg().Path()
+			}
+			return "<nil>"
+		}
+		c.Render(snippet.Block(fmt.Sprintf("// LOCATED %s.%s in %s\n", pkg, typ, where(named.Obj()))))
+		if st, ok := named.Underlying().(*types.Struct); ok {
+			for i := 0; i < st.NumFields(); i++ {
+				ft := st.Field(i).Type()
+				if p, ok := ft.(*types.Pointer); ok {
+					ft = p.Elem()
+				}
+				if fn, ok := ft.(*types.Named); ok && fn.Obj().Pkg() != nil && fn.Obj().Pos().IsValid() {
+					c.Render(snippet.Block(fmt.Sprintf("// LOCATED field type %s.%s in %s\n", fn.Obj().Pkg().Path(), fn.Obj().Name(), where(fn.Obj()))))
+				}
+			}
 		}
 	}
 	if a.DocOfSelf {
